@@ -44,12 +44,24 @@ package owa
 //@   ensures [members] forall k int :: 0 <= k && k < len(*weights) ==> exists j int :: 0 <= j && j < len(*weights) && (*weights)[k] == old((*weights)[j])
 //@   ensures [all_present] forall j int :: 0 <= j && j < len(*weights) ==> exists k int :: 0 <= k && k < len(*weights) && (*weights)[k] == old((*weights)[j])
 
+// criterionAlreadyExist: the rejection itself - never returns
+//@ func criterionAlreadyExist
+//@   property C07 C03 C20 C18
+//@   panics_iff [always] true
+
 //@ func addCriteria
 //@   property C07 C03 C20 C18
 //@   requires 0 <= offset && offset + len(*toAdd) <= len(*result) && *validationCache != nil && arr(*result) != arr(*toAdd)
 //@   assigns *result, *validationCache
 //@   ensures [copied] forall k int :: offset <= k && k < offset + len(*toAdd) ==> (*result)[k] == (*toAdd)[k - offset]
 //@   ensures [rest_unchanged] *result == old(*result) && forall k int :: 0 <= k && k < len(*result) && !(offset <= k && k < offset + len(*toAdd)) ==> (*result)[k] == old((*result)[k])
+//@   ensures [a_criterion_seen_before_is_rejected] forall k int, q string :: 0 <= k && k < len(*toAdd) && q == (*toAdd)[k].Id ==> !old(q in *validationCache)
+//@   ensures [no_criterion_twice] forall j int, k int :: 0 <= j && j < k && k < len(*toAdd) ==> (*toAdd)[j].Id != (*toAdd)[k].Id
+//@   ensures [every_added_criterion_is_remembered] (forall q string :: old(q in *validationCache) ==> q in *validationCache) && forall k int :: 0 <= k && k < len(*toAdd) ==> (*toAdd)[k].Id in *validationCache
+//@   loop 1 invariant [a_criterion_seen_before_is_rejected] forall k int, q string :: 0 <= k && k < iter && q == (*toAdd)[k].Id ==> !old(q in *validationCache)
+//@   loop 1 invariant [no_criterion_twice] forall j int, k int :: 0 <= j && j < k && k < iter ==> (*toAdd)[j].Id != (*toAdd)[k].Id
+//@   loop 1 invariant [every_added_criterion_is_remembered] (forall q string :: old(q in *validationCache) ==> q in *validationCache) && forall k int :: 0 <= k && k < iter ==> (*toAdd)[k].Id in *validationCache
+//@   loop 1 invariant [only_those] forall q string :: q in *validationCache ==> (old(q in *validationCache) || exists k int :: 0 <= k && k < iter && (*toAdd)[k].Id == q)
 //@   loop 1 invariant [copied] forall k int :: offset <= k && k < offset + iter ==> (*result)[k] == (*toAdd)[k - offset]
 //@   loop 1 invariant [rest_unchanged] *result == old(*result) && forall k int :: 0 <= k && k < len(*result) && !(offset <= k && k < offset + iter) ==> (*result)[k] == old((*result)[k])
 
